@@ -144,7 +144,17 @@ def trace_files_stage(ctx, driver, prefix, nfiles, module="Trace_Balloon", cfg=N
             ctx.count("ev_" + k, v)
         viol = parse_viol(r["out"])
         if viol is None or r.get("depth") not in (n, n + 1):
-            tail = "\n".join(r["out"].splitlines()[-25:])
+            out = r["out"]
+            evalerr = [x for x in out.splitlines() if ("Attempted to" in x or "was not in the domain" in x or "nonexistent field" in x
+                                                        or "which is not in the domain" in x or "out of bounds" in x)]
+            if evalerr and r.get("depth") and "OutOfMemory" not in out:
+                # the real code produced an event the specification cannot even evaluate (a value outside every
+                # domain the model knows): the behaviour is not a behaviour of the specification
+                d = r.get("depth")
+                ctx.violation(ctx.pid, "behaviour not explainable by the specification (TLC evaluation error: %s)" % evalerr[0].strip()[:160],
+                              "%s:%d" % (path, d + 1))
+                continue
+            tail = "\n".join(out.splitlines()[-25:])
             raise Infra("trace %s not fully consumed by %s (depth %s of %d)\n%s" % (path, module, r.get("depth"), n, tail))
         for also, prop, line, what in viol:
             where = "%s:%d" % (path, line)
@@ -472,9 +482,9 @@ PLANS = {
                 "up to 2^63-1, all-ones digests, snapshots / signed batches (JSON), gossip messages (msgpack), answers for versions beyond current"),
     "C14": plan("model_checking", [mc_store, store_tv_stage], RULE_STORE),
     "C15": plan("model_checking", [mc_logstore, logstore_tv_stage], RULE_LOGSTORE),
-    "C05": plan("model_checking", [mc_cluster, cluster_tv("replicas", 6, 12), crashcluster_tv(2, 8), thorough_only(balloon_tv_stage)],
+    "C05": plan("model_checking", [mc_cluster, cluster_tv("replicas", 6, 12), cluster_tv("restore", 3, 8), crashcluster_tv(2, 8), thorough_only(balloon_tv_stage)],
                 RULE_CLUSTER + "; plus 3-process clusters whose leader is SIGKILLed before/after the store write of an insertion"),
-    "C06": plan("model_checking", [mc_cluster, cluster_tv("replicas", 6, 16), crashcluster_tv(2, 8)],
+    "C06": plan("model_checking", [mc_cluster, cluster_tv("replicas", 6, 16), cluster_tv("restore", 3, 8), crashcluster_tv(2, 8)],
                 RULE_CLUSTER + "; plus 3-process clusters whose leader is SIGKILLed mid-insertion, re-election, restart and catch-up by log replay"),
     "C07": plan("fault_enumeration", [mc_cluster, crash_tv("kill", 8, 16), crashcluster_tv(3, 12)], RULE_CLUSTER + "; fault enumeration: a child process hosting a real "
                 "RaftNode SIGKILLs itself immediately before / after the i-th store write (every i of the workload, both sides, with and "
